@@ -52,7 +52,18 @@ Next ==
                          /\ st.q.unb - st.q.empt <= 0
                          /\ C!SomethingQueued(st.c, sc)
                       THEN <<[p |-> "C07", g |-> "QueuedRequestNotReturned"]>> ELSE <<>>
-                vs == IF sc.resonly THEN R!RStep(e, st.c) ELSE rc.v \o rq.v \o rp.v \o xq \o R!RStep(e, st.c)
+                \* C07 (virtual time only, queue families): "no request stays queued while a receiver remains
+                \* blocked" -- the clock only moves when every thread is blocked, so when a request is handed over,
+                \* no receive call that can block may have been in progress at an earlier instant at which the
+                \* request was already queued
+                yq == IF /\ e.ev = "RecvRet" /\ e.res = "req" /\ e.c >= 0 /\ sc.drv = "d1" /\ sc.prop \in {"C07", "C17"}
+                         /\ C!PlainUpTo(sc, e.c, e.m)
+                         /\ st.c.avail[e.c + 1][e.m + 1] >= 0
+                         /\ \E t \in Q!Blocked(st.q) :
+                               /\ st.q.call[t].kind \in {"recv", "iter", "timeout"}
+                               /\ st.q.call[t].start < e.now /\ st.c.avail[e.c + 1][e.m + 1] < e.now
+                      THEN <<[p |-> "C07", g |-> "ReceiverBlockedWhileQueued"]>> ELSE <<>>
+                vs == IF sc.resonly THEN R!RStep(e, st.c) ELSE rc.v \o rq.v \o rp.v \o xq \o yq \o R!RStep(e, st.c)
             IN /\ st' = [c |-> rc.s, q |-> rq.s, p |-> rp.s]
                /\ sc' = sc
                /\ Report(e, vs)
